@@ -58,6 +58,12 @@ func envInt(k string, def int) int {
 
 func shardNo() int { return envInt("VERIF_SHARD", 0) }
 
+// firstShard reports whether this process is the first shard of its test
+// (the one that replays the committed regression inputs).
+func firstShard() bool {
+	return os.Getenv("VERIF_FIRST_SHARD") == "1" || (os.Getenv("VERIF_OUT") == "" && shardNo() == 0)
+}
+
 func NewRecorder(prop, test string) *Recorder {
 	r := &Recorder{Prop: prop, Test: test, hashes: map[string]bool{}, labels: map[string]int{},
 		extra: map[string]interface{}{}, knownHits: map[string]string{}}
